@@ -281,3 +281,5 @@ def run(rep, progs, tier):
         READS.bind(prog)
         greeting_rules(rep, prog, cfg)
         valid_prefix_rule(rep, prog, cfg, rule="C18.greeting-input", which=("blocking/connect", "async/connect"))
+        from .C02 import count_scope_rule
+        count_scope_rule(rep, prog, cfg, rule="C18.greeting-input", which=("blocking/connect", "async/connect"))
